@@ -976,6 +976,20 @@ theorem N_setStOurs (x : M) (s : State) (o a : Option Str) :
     N { x with st := s, mcNameOurs := o, mcNameAnc := a } =
       updStO (N x) s.er (keepIf (isMergeConflict s) o) (keepIf (isMergeConflict s) a) := rfl
 
+theorem N_mcPendingHeader (cfg : Cfg) (m : M) : NE (mcPendingHeader cfg (N m)) = NE (mcPendingHeader cfg m) := by
+  unfold mcPendingHeader
+  have h2 : (N m).st = m.st.er := rfl
+  cases hs : m.st with
+  | hunkHeader dt hh line raw src =>
+    rw [hs] at h2
+    simp only [State.er] at h2
+    simp only [h2]
+    exact N_emitHunkHeader cfg m hh line raw src
+  | _ =>
+    rw [hs] at h2
+    simp only [State.er] at h2
+    simp only [h2, NE_ok, N_N]
+
 theorem N_handleMergeConflict (cfg : Cfg) (m : M) (l : L) :
     NR (handleMergeConflict cfg (N m) l) = NR (handleMergeConflict cfg m l) := by
   unfold handleMergeConflict
@@ -987,7 +1001,23 @@ theorem N_handleMergeConflict (cfg : Cfg) (m : M) (l : L) :
     | some mp =>
       simp only
       cases parseMergeMarker l.text Markers.mcBegin with
-      | some c => simp only [NR_ok, ↓N_setStOurs, N_flushMP, N_N]
+      | some c =>
+        simp only
+        have h1 := N_mcPendingHeader cfg m
+        cases hq : mcPendingHeader cfg m with
+        | error e =>
+          rw [hq] at h1
+          cases hr : mcPendingHeader cfg (N m) with
+          | error e' => rw [hr] at h1; simp only [NE_error] at h1; cases h1; rfl
+          | ok x => rw [hr] at h1; simp at h1
+        | ok m1 =>
+          rw [hq] at h1
+          cases hr : mcPendingHeader cfg (N m) with
+          | error e' => rw [hr] at h1; simp at h1
+          | ok x =>
+            rw [hr] at h1
+            simp only [NE_ok, Except.ok.injEq] at h1
+            simp only [NR_ok, ↓N_setStOurs, N_flushMP, h1]
       | none => npush
     | none =>
       simp only
@@ -1539,6 +1569,14 @@ theorem P_storeOr (p : List Row) (o : Option M) (a : Except String M) :
   | some x => rfl
   | none => cases a <;> rfl
 
+theorem P_mcPendingHeader (p : List Row) (cfg : Cfg) (m : M) :
+    PE p (mcPendingHeader cfg m) = mcPendingHeader cfg (P p m) := by
+  unfold mcPendingHeader
+  pfields
+  split
+  · rw [P_emitHunkHeader]
+  · rfl
+
 theorem P_handleMergeConflict (p : List Row) (cfg : Cfg) (m : M) (l : L) :
     PR p (handleMergeConflict cfg m l) = handleMergeConflict cfg (P p m) l := by
   unfold handleMergeConflict
@@ -1549,7 +1587,12 @@ theorem P_handleMergeConflict (p : List Row) (cfg : Cfg) (m : M) (l : L) :
     | some mp =>
       simp only
       cases parseMergeMarker l.text Markers.mcBegin with
-      | some c => simp only [PR_ok, ↓P_updStOurs, P_flushMP]
+      | some c =>
+        simp only
+        rw [← P_mcPendingHeader]
+        cases mcPendingHeader cfg m with
+        | error e => rfl
+        | ok m1 => simp only [PE_ok, PR_ok, ↓P_updStOurs, P_flushMP]
       | none => ppush
     | none =>
       simp only
@@ -2299,7 +2342,16 @@ theorem idle_handleMergeConflict {cfg : Cfg} {m m' : M} {l : L} {b : Bool}
   · cases e; exact Idle.refl _
   · split at e
     · split at e
-      · cases e; exact Idle.of_eq (by simp) (by simp)
+      · split at e
+        · cases e
+        · rename_i m1 e1
+          cases e
+          have h1 : Idle m m1 := by
+            unfold mcPendingHeader at e1
+            split at e1
+            · exact idle_emitHunkHeader e1
+            · cases e1; exact Idle.refl _
+          exact h1.trans (Idle.of_eq (by simp) (by simp))
       · cases e; exact Idle.refl _
     · split at e
       all_goals first
